@@ -180,7 +180,7 @@ fn weights(focus: &str) -> Vec<(Grp, u64)> {
         "C10" => &[Grp::Display, Grp::Draw, Grp::Edit],
         "C12" => &[Grp::Mode],
         "C13" => &[Grp::Edit],
-        "C14" => &[Grp::Save, Grp::Mode, Grp::Charset],
+        "C14" => &[Grp::Save, Grp::Mode, Grp::Charset, Grp::Resize],
         "C15" => &[Grp::Reset],
         "C16" => &[Grp::Resize, Grp::Edit],
         "C17" => &[Grp::Clear, Grp::Mode],
@@ -441,6 +441,12 @@ pub fn soup(rng: &mut Rng, i: u64, opts: &Opts) -> Vec<History> {
             0 => evs.push(hev("display", vec![], vec![], false, "api")),
             1 => evs.push(hev("resize", vec![rng.range(1, l as i64 + 2), rng.range(1, c as i64 + 2)], vec![], false, "api")),
             2 => evs.push(hev("utf8", vec![if rng.chance(1, 2) { 1 } else { 0 }], vec![], false, "api")),
+            3 => {
+                // a round trip through 8-bit mode (a tail pending before it must not survive)
+                evs.push(hev("utf8", vec![0], vec![], false, "api"));
+                if rng.chance(1, 2) { evs.push(HEv { b: vec![0x62], ..hev("feedb", vec![], vec![], false, "bytes") }); }
+                evs.push(hev("utf8", vec![1], vec![], false, "api"));
+            }
             _ => {}
         }
     }
